@@ -2147,6 +2147,7 @@ impl EGraph {
                     desugared_before_proofs.extend(resolved.resolved_before_proofs);
                 } else {
                     let resolved = self.resolve_command(command)?;
+                    let proof_check_program_len = self.proof_check_program.len();
                     if run_commands && self.are_proofs_enabled() {
                         self.proof_check_program
                             .extend(resolved.desugared_before_proofs.clone());
@@ -2163,7 +2164,17 @@ impl EGraph {
                                 ResolvedNCommand::Push(_) | ResolvedNCommand::Pop(_, _)
                             )
                         {
-                            let result = self.run_command(processed)?;
+                            let result = match self.run_command(processed) {
+                                Ok(result) => result,
+                                Err(e) => {
+                                    // A command that fails must not stay in the program
+                                    // proofs are checked against (e.g. a rejected duplicate
+                                    // rule would make every later proof check fail).
+                                    self.proof_check_program
+                                        .truncate(proof_check_program_len);
+                                    return Err(e);
+                                }
+                            };
                             outputs.extend(result);
                         }
                     }
